@@ -87,6 +87,37 @@ def carried_fn(method, c, active):
         return False
 
 
+DOC_FORMS = [DOC, '""""""', '"""   """', None, '"""Summary only"""', '"""\n    Summary line\n\n    :param a: the a\n    """']
+DTABLE = [(dv, sel, fin, hops, method) for dv in range(len(DOC_FORMS)) for sel in ((), (0,), (6,), (6, 2)) for fin in (0, 1, 3)
+          for hops in (1, 2) for method in (0, 1)]
+
+
+def carried_docs(c, active):
+    """the body survives 1..3 parse/emit hops whatever the docstring looks like (full, empty, blank, absent, summary only, partial)"""
+    c = realize(c)
+    with untraced():
+        dv, sel, fin, hops, method = DTABLE[c]
+        body = [STMTS[k] for k in sel] + ([FINALS[fin]] if FINALS[fin] else [])
+        if not body:
+            body = ["pass"]
+        head = "def f(%sa: int, b: int = 5):" % ("self, " if method else "")
+        src = head + ("\n    " + DOC_FORMS[dv] if DOC_FORMS[dv] is not None else "") + "\n" + "\n".join(_indent(x) for x in body) + "\n"
+        fd = ast.parse(src).body[0]
+        has_doc = ast.get_docstring(fd, clean=False) is not None
+        want = [ast.dump(ast.parse(ast.unparse(n)).body[0]) for n in fd.body[(1 if has_doc else 0):]]
+        cur = fd
+        for _ in range(hops):
+            ir = parse.function(cur)
+            out = emit.function(ir, function_name="f", function_type=ir["type"])
+            cur = ast.parse(ast.unparse(ast.fix_missing_locations(out))).body[0]
+            got = [ast.dump(n) for n in cur.body[1:]]  # emit.function always writes a docstring first
+            if got != want:
+                if "KF-C16-return-tuple-parens" in active and fin == 3 and got[:-1] == want[:-1]:
+                    continue
+                return False
+        return True
+
+
 def argparse_src(sel, fin):
     body = ["argument_parser.description = 'Summary line'", "argument_parser.add_argument('--a', type=int, help='the a', required=True)"]
     extra = [STMTS[k].replace("return 1", "return argument_parser") for k in sel]
@@ -218,6 +249,10 @@ def rename_noparams(c0, c1, c2, c3, c4, c5):
 
 def obligations(tier, seed):
     obs = []
+    obs.append(Ob(name="carried_docstring_forms", params=[("c", "int")], pre=["0 <= c < %d" % len(DTABLE)], body="H.carried_docs(c, {ACTIVE})",
+                  witness=(0,), kind="F",
+                  bounds="%d cells: 6 docstring forms (full, empty, blank, absent, summary only, partial) x 4 bodies x 3 final statements x 1..2 "
+                  "parse/emit hops through the text x function|method" % len(DTABLE), timeout=280, path_timeout=100, funcs=FUNCS))
     obs.append(Ob(name="rename_call_noparams", params=[("c%d" % i, "int") for i in range(6)],
                   pre=["all(0 <= x < 8 for x in (c0, c1, c2, c3, c4, c5))"], body="H.rename_noparams(c0, c1, c2, c3, c4, c5)",
                   witness=(2, 0, 1, 3, 4, 4), bounds="the same body template on an interface with zero parameters: __call__ body identical",
